@@ -679,7 +679,7 @@ SystemMaybe<bool> Senpai::validateSwap(const CgroupContext& cgroup_ctx) const {
   if (!effective_swap_util_pct_opt) {
     return SYSTEM_ERROR(ENOENT);
   }
-  return *effective_swap_util_pct_opt >= swap_threshold_;
+  return *effective_swap_util_pct_opt < swap_threshold_;
 }
 
 // Calculate swappiness factor (between 0 and 1) for a cgroup to modulate swap
